@@ -62,7 +62,7 @@ def _prune(keep):
         return
     dirs = sorted((d for d in root.iterdir() if d.is_dir() and d.name != keep),
                   key=lambda d: d.stat().st_mtime, reverse=True)
-    for d in dirs[2:]:
+    for d in dirs[6:]:
         shutil.rmtree(d, ignore_errors=True)
 
 
